@@ -101,6 +101,8 @@ type ktimer struct {
 	inbound bool   // marks an inbound-frame due event
 	active  bool
 	auto    bool // close the feeder after a one-shot fire
+	owner   *ktask
+	missed  int // consecutive fires that found the channel still full
 }
 
 type timerHeap []*ktimer
@@ -131,15 +133,18 @@ type inFrame struct {
 }
 
 type fsWrite struct {
-	name string
-	data []byte
-	prev []byte
-	had  bool
+	name   string
+	data   []byte
+	prev   []byte
+	had    bool
+	rename string // non-empty: this entry is rename(name -> rename)
+	remove bool   // this entry is remove(name)
 }
 
 type kernel struct {
 	cfg   Config
-	tasks []*ktask
+	tasks []*ktask // live tasks only (finished ones are removed)
+	ntask int64    // ids handed out
 	live  int
 	locks map[int64]*lockState
 	tmrs  timerHeap
@@ -242,7 +247,8 @@ func Run(cfg Config, driver func()) Outcome {
 	// driver task
 	t := newTaskCtx()
 	kt := &ktask{id: 1, ctx: t, kind: 1, state: tsRunnable, held: map[int64]int{}}
-	k.tasks = append(k.tasks, nil, kt)
+	k.tasks = append(k.tasks, kt)
+	k.ntask = 1
 	k.live = 1
 	active = true
 	cur = nil
@@ -394,14 +400,7 @@ func (k *kernel) pick(cur *ktask) *ktask {
 		}
 		// nothing can run: events that are already due fire first (no clock movement) ...
 		if len(k.tmrs) > 0 && k.tmrs[0].when <= k.now {
-			var ties []*ktimer
-			for _, t := range k.tmrs {
-				if t.when <= k.now {
-					ties = append(ties, t)
-				}
-			}
-			sort.Slice(ties, func(i, j int) bool { return ties[i].seq < ties[j].seq })
-			k.fire(ties[k.choose(len(ties))])
+			k.fireOneDue()
 			continue
 		}
 		// ... then settle waiters (the clock must not move under them)
@@ -430,17 +429,25 @@ func (k *kernel) pick(cur *ktask) *ktask {
 		if when > k.now {
 			k.now = when
 		}
-		// collect ties and let the tape order them
-		var ties []*ktimer
-		for _, t := range k.tmrs {
-			if t.when <= k.now {
-				ties = append(ties, t)
-			}
-		}
-		sort.Slice(ties, func(i, j int) bool { return ties[i].seq < ties[j].seq })
-		t := ties[k.choose(len(ties))]
-		k.fire(t)
+		k.fireOneDue()
 	}
+}
+
+// fireOneDue fires one of the timers that are due (when <= now); the tape picks which.
+func (k *kernel) fireOneDue() {
+	var ties []*ktimer
+	for len(k.tmrs) > 0 && k.tmrs[0].when <= k.now {
+		ties = append(ties, heap.Pop(&k.tmrs).(*ktimer))
+	}
+	sort.Slice(ties, func(i, j int) bool { return ties[i].seq < ties[j].seq })
+	pick := k.choose(len(ties))
+	for i, t := range ties {
+		if i != pick {
+			heap.Push(&k.tmrs, t)
+		}
+	}
+	heap.Push(&k.tmrs, ties[pick]) // fire() removes it by index
+	k.fire(ties[pick])
 }
 
 func (k *kernel) noProgress() {
@@ -494,6 +501,21 @@ func (k *kernel) fire(t *ktimer) {
 	semrelease(&t.fd.sema, true, 0)
 	semacquire(&ksema)
 	k.epoch++
+	if t.period > 0 {
+		// A ticker whose creator has exited and whose ticks nobody consumes is garbage (the Go
+		// runtime collects unreferenced tickers); stop feeding it.
+		if t.fd.res == 0 {
+			t.missed++
+		} else {
+			t.missed = 0
+		}
+		if t.missed >= 2 && t.owner != nil && t.owner.state == tsDone {
+			t.active = false
+			k.closeTimer(t)
+			k.tr("ticker %d abandoned: collected", t.id)
+			return
+		}
+	}
 	k.tr("timer %d fired", t.id)
 	if t.period > 0 {
 		t.when += t.period
@@ -629,6 +651,12 @@ func (k *kernel) handle(t *ktask, m msg) {
 	case opExit:
 		t.state = tsDone
 		k.live--
+		for i, x := range k.tasks {
+			if x == t {
+				k.tasks = append(k.tasks[:i], k.tasks[i+1:]...)
+				break
+			}
+		}
 		k.tr("task %d exit", t.id)
 		if len(t.held) > 0 {
 			for id, n := range t.held {
@@ -752,7 +780,7 @@ func (k *kernel) handle(t *ktask, m msg) {
 		k.sleepTask(t, m.a)
 	case opTimerNew:
 		k.seq++
-		tm := &ktimer{id: m.a, when: k.now + m.b, period: m.c, seq: k.seq, fd: m.fd, active: true}
+		tm := &ktimer{id: m.a, when: k.now + m.b, period: m.c, seq: k.seq, fd: m.fd, active: true, owner: t}
 		if m.c < 0 { // auto-close one shot
 			tm.period = 0
 			tm.auto = true
@@ -862,6 +890,10 @@ func (k *kernel) handle(t *ktask, m msg) {
 			if k.netReader != nil {
 				t.pend.r0 = 1
 			}
+		case NetCtlReopen:
+			k.netClosed, k.rdErrPerm, k.wrErrPerm = false, false, false
+			k.rdErrTemp, k.wrErrTemp = 0, 0
+			k.inq = nil
 		}
 		if k.netReader != nil {
 			k.tryNetRead(k.netReader)
@@ -916,6 +948,28 @@ func (k *kernel) handle(t *ktask, m msg) {
 			}
 		}
 		k.files[name] = data
+	case opFSRename:
+		i := 0
+		for i < len(m.payload) && m.payload[i] != 0 {
+			i++
+		}
+		from, to := string(m.payload[:i]), string(m.payload[i+1:])
+		d, ok := k.files[from]
+		if !ok {
+			t.pend.r0 = FSNotExist
+			return
+		}
+		k.fsHist = append(k.fsHist, fsWrite{name: from, rename: to})
+		k.files[to] = d
+		delete(k.files, from)
+	case opFSRemove:
+		name := string(m.payload)
+		if _, ok := k.files[name]; !ok {
+			t.pend.r0 = FSNotExist
+			return
+		}
+		k.fsHist = append(k.fsHist, fsWrite{name: name, remove: true})
+		delete(k.files, name)
 	case opFSCtl:
 		switch m.a {
 		case FSCtlGet:
@@ -935,12 +989,24 @@ func (k *kernel) handle(t *ktask, m msg) {
 			k.failWriteK, k.failWriteC, k.failWriteN = m.b, m.c, m.d
 		case FSCtlFailRead:
 			k.failReadK = m.b
+		case FSCtlReset:
+			k.files = map[string][]byte{}
 		case FSCtlWriteCount:
 			t.pend.r0 = k.fsWrites
 		case FSCtlHistory:
 			if int(m.b) < len(k.fsHist) {
 				h := k.fsHist[m.b]
 				t.pend.r0 = 1
+				if h.rename != "" {
+					t.pend.r1 = -2
+					t.pend.payload = append(append([]byte(h.name), 0), h.rename...)
+					return
+				}
+				if h.remove {
+					t.pend.r1 = -3
+					t.pend.payload = []byte(h.name)
+					return
+				}
 				if h.had {
 					t.pend.r1 = int64(len(h.prev))
 				} else {
@@ -958,7 +1024,8 @@ func (k *kernel) handle(t *ktask, m msg) {
 }
 
 func (k *kernel) nextTask(site int64, ctx *taskCtx, kind int) {
-	id := int64(len(k.tasks))
+	k.ntask++
+	id := k.ntask
 	nt := &ktask{id: id, ctx: ctx, kind: kind, site: site, state: tsRunnable, held: map[int64]int{}}
 	nt.lastSite = site
 	k.tasks = append(k.tasks, nt)
